@@ -133,6 +133,8 @@ def build(cfg, candles=None, **extra):
     return getattr(I, cfg["cls"])(**kw)
 
 
+COMMON_KW = {"timeframe", "timeframe_fill", "candles_lifespan", "candlestick_type", "round_value", "name_suffix",
+             "fullname_override", "candles"}
 MAP_KEY = {v.__name__: k for k, v in I.INDICATOR_MAP.items()}
 
 
@@ -140,7 +142,10 @@ def as_dict_form(cfg, **extra):
     """The configuration-dict form Hexital accepts for the same indicator."""
     kw = _common({**cfg.get("kw", {}), **extra})
     if cfg["cls"] == "Amorph":
-        return {"analysis": cfg["analysis"], **kw}
+        # analysis arguments travel under "args": a flat "indicator" key would be read as a class name
+        common = {k: v for k, v in kw.items() if k in COMMON_KW}
+        args = {k: v for k, v in kw.items() if k not in COMMON_KW}
+        return {"analysis": cfg["analysis"], **common, **({"args": args} if args else {})}
     return {"indicator": MAP_KEY[cfg["cls"]], **kw}
 
 
